@@ -57,13 +57,27 @@ func (cd *CorrectionDefinition) Merge(other *CorrectionDefinition) *CorrectionDe
 	}
 	cd = &CorrectionDefinition{
 		Schema:         cd.Schema,
-		Types:          append(cd.Types, other.Types...),
-		Extensions:     append(cd.Extensions, other.Extensions...),
+		Types:          appendUniqueKeys(cd.Types, other.Types),
+		Extensions:     appendUniqueKeys(cd.Extensions, other.Extensions),
 		ReasonRequired: cd.ReasonRequired || other.ReasonRequired,
-		Stamps:         append(cd.Stamps, other.Stamps...),
+		Stamps:         appendUniqueKeys(cd.Stamps, other.Stamps),
 		CopyTax:        cd.CopyTax,
 	}
 	return cd
+}
+
+// appendUniqueKeys provides a new list with the keys of both lists, each
+// of them only once: a regime and an addon may well define the same types.
+func appendUniqueKeys(a, b []cbc.Key) []cbc.Key {
+	out := make([]cbc.Key, 0, len(a)+len(b))
+	for _, l := range [][]cbc.Key{a, b} {
+		for _, k := range l {
+			if !k.In(out...) {
+				out = append(out, k)
+			}
+		}
+	}
+	return out
 }
 
 // HasType returns true if the correction definition has a type that matches the one provided.
